@@ -136,6 +136,10 @@ class Recorder(object):
         try:
             return True, fn(*a, **k)
         except Exception as e:  # noqa
+            if getattr(self, "lenient", False):
+                # element-type shards: a refusal is not an answer and is not judged (counted and shown in the evidence)
+                self.refusal("%s:%s" % (sub, type(e).__name__))
+                return False, None
             tb = traceback.extract_tb(e.__traceback__)
             where = ["%s:%d %s" % (os.path.basename(f.filename), f.lineno, f.name) for f in tb[-3:]]
             repo = os.path.realpath(os.environ.get("VP_REPO", "/repo")) + os.sep
